@@ -122,6 +122,67 @@ def directed_cases():
                 held.append(1); return [0.001, 0.45]
             return [0.001]
         return fate
+    # a message of more fragments than any plausible receive-side bound, whose FIRST fragment is lost once: everything behind it
+    # arrives (and is acknowledged) ahead of its turn and must still be released when the gap closes
+    def ff_head(sim, rng):
+        seen = []
+        def fate(tx):
+            d = tx.data
+            if not seen and len(d) > 14 and d[:2] == b"\xea\xd0" and _is_data(tx, True):
+                seen.append(1); return []
+            return [0.004]
+        return fate
+    for nfr in (70, 130, 250):      # (a fragment id is one byte: 255 fragments is the largest message the encoding can carry)
+        cases.append(("long-message-head-lost:%d" % nfr, ps.Cfg(fragment_size=3, resend_timeout=1.0),
+                      [[("c", 0, bytes((i * 7) & 0xFF for i in range(3 * nfr - 1))), ("c", 0, b"after")], [("s", 0, b"reply")]], ff_head, "budget", {}))
+    # a peer that acknowledges DATA with (truthful, correctly signed) aggregate acknowledgements instead of individual ones — the
+    # library never sends them itself: old format (v0; v1 with substream id 0) and new format (v1, substream id 1 as marker,
+    # the substream in the payload), one and two substreams, with one DATA datagram lost
+    def ff_aggr(version, newfmt, lose_sub):
+        def ff(sim, rng):
+            from nintendo.nex import prudp
+            cfg = ps.Cfg(version=version, max_substream=(1 if version else 0), fragment_size=5)
+            st = cfg.settings()
+            obs = ps.Observer(st, cfg)
+            enc = prudp.PRUDPMessageSelector(st).select(version)
+            acked, lost = {}, []
+            def fate(tx):
+                pk = obs.decode(tx.data)
+                if not pk: return [0.004]
+                p = pk[0]
+                if tx.dst == ps.SERVER and p.type == ps.TYPE_DATA and p.flags & ps.F_REL and not p.flags & ps.F_ACK and p.substream_id == lose_sub and not lost and p.packet_id >= 3:
+                    lost.append(1); return []
+                if tx.src == ps.SERVER and p.type == ps.TYPE_DATA and p.flags & ps.F_ACK and not p.flags & 0x200:
+                    sub = p.substream_id
+                    ids = acked.setdefault(sub, set()); ids.add(p.packet_id)
+                    base = 1 if sub == 0 else 0          # ids up to here were acknowledged before any DATA (CONNECT has id 1 on substream 0)
+                    while (base + 1) in ids: base += 1
+                    extra = sorted(i for i in ids if i > base)[:20]
+                    a = prudp.PRUDPPacket(ps.TYPE_DATA, ps.F_ACK | 0x200)
+                    a.version = p.version
+                    a.source_type, a.source_port, a.dest_type, a.dest_port = p.source_type, p.source_port, p.dest_type, p.dest_port
+                    a.session_id = p.session_id
+                    a.fragment_id = 0
+                    if newfmt:
+                        a.substream_id, a.packet_id = 1, 0
+                        a.payload = bytes([sub, len(extra)]) + base.to_bytes(2, "little") + b"".join(i.to_bytes(2, "little") for i in extra)
+                    else:
+                        if sub != 0: return [0.004]          # the old format has no substream field: only substream 0 can be aggregated
+                        a.substream_id, a.packet_id = 0, base
+                        ex = (extra + [base, base])[:max(2, len(extra))]
+                        a.payload = b"".join(i.to_bytes(2, "little") for i in ex)
+                    a.signature = enc.calc_packet_signature(a, b"", enc.calc_connection_signature(tx.src))
+                    sim.net.inject(tx.src, tx.dst, enc.encode(a), 0.004)
+                    return []
+                return [0.004]
+            return fate
+        return ff
+    msgs = lambda sub, tag: [("c", sub, bytes([tag + i]) * (11 + i)) for i in range(5)]
+    cases.append(("aggregate-acks:v0-old", ps.Cfg(version=0, fragment_size=5), [msgs(0, 65), [("s", 0, b"done")]], ff_aggr(0, False, 0), "budget", {}))
+    cases.append(("aggregate-acks:v1-old", ps.Cfg(version=1, max_substream=1, fragment_size=5), [msgs(0, 65), [("s", 0, b"done")]], ff_aggr(1, False, 0), "budget", {}))
+    cases.append(("aggregate-acks:v1-new", ps.Cfg(version=1, max_substream=1, fragment_size=5), [msgs(0, 65), [("s", 0, b"done")]], ff_aggr(1, True, 0), "budget", {}))
+    cases.append(("aggregate-acks:v1-new-two-substreams", ps.Cfg(version=1, max_substream=1, fragment_size=5),
+                  [[x for pair in zip(msgs(0, 65), msgs(1, 97)) for x in pair], [("s", 0, b"done"), ("s", 1, b"done1")]], ff_aggr(1, True, 1), "budget", {}))
     N = 66000
     cases.append(("stale-duplicate-beyond-half-window", ps.Cfg(ping_timeout=1e9),
                   [[("c", 0, bytes([i & 255, (i >> 8) & 255, i >> 16])) for i in range(a, min(N, a + 1000))] for a in range(0, N, 1000)],
